@@ -484,6 +484,31 @@ class Interp:
         self.trace, self.st = outer
         return results
 
+    def at_path(self, p):
+        """context manager: evaluate coercions under the path condition of a finished path (no new forks)"""
+        interp = self
+
+        class _NoFork(Trace):
+            def decide(self, options_fn):
+                opts = options_fn()
+                if len(opts) == 1:
+                    return opts[0]
+                raise Unsupported("value of ambiguous kind at function exit")
+
+        class _Ctx:
+            def __enter__(self_):
+                self_.saved = (interp.trace, interp.st)
+                interp.trace = _NoFork([])
+                interp.st = State()
+                interp.st.pc = list(p.pc)
+                interp.st.env = dict(p.env or {})
+                return interp
+
+            def __exit__(self_, *a):
+                interp.trace, interp.st = self_.saved
+                return False
+        return _Ctx()
+
     def run_function(self, qualname, args: dict, pre=()):
         """Symbolically execute the body of `qualname` on the given argument values under `pre`."""
         fn = self.src.find(qualname)
